@@ -13,7 +13,10 @@ for f in sys.argv[4:]:
         try: res.append(json.loads(l))
         except Exception: pass
 todo = [r for r in res if r['status'] in ('survived', 'error')]
-todo.sort(key=lambda r: r['id'])
+PRI = {'del-stmt': 0, 'del-assign': 0, 'del-if': 0, 'del-if-body': 0, 'swap-args': 1, 'binop': 1, 'break->continue': 1, 'continue->break': 1, 'drop-not': 2, 'flip-bool-return': 2, 'negate-if': 3, 'lit+1': 4, 'lit-1': 4}
+SKIPF = ('String', 'Diagnostics', 'Validate', 'Close', 'New', 'Open')
+todo = [r for r in todo if not any(r['func'].endswith(x) for x in SKIPF) and not r['file'].startswith(('dkv/storage/', 'storage/locations/', 'storage/objstore/', 'connectors/read_source', 'config/'))]
+todo.sort(key=lambda r: (PRI.get(r['op'].split(' ')[0], 5), r['id']))
 done = set()
 if os.path.exists(out):
     for l in open(out):
@@ -21,11 +24,11 @@ if os.path.exists(out):
         except Exception: pass
 env = dict(os.environ, GOFLAGS='-mod=mod', GOEXPERIMENT='synctest')
 for k in ('GOTOOLCHAIN', 'GOWORK', 'GOPROXY', 'GOSUMDB'): env.pop(k, None)
-def run():
-    p = subprocess.run(['/usr/bin/go', 'test', '-count=1', '-vet=off', '-timeout=120s', './...'], cwd=wt, env=env, capture_output=True, text=True)
+def run(pkgs='./...'):
+    p = subprocess.run(['/usr/bin/go', 'test', '-count=1', '-vet=off', '-timeout=60s'] + pkgs.split(), cwd=wt, env=env, capture_output=True, text=True)
     fails = [l for l in p.stdout.splitlines() if l.startswith('--- FAIL') or l.startswith('FAIL') or 'panic:' in l or '[build failed]' in l]
     fails = [l for l in fails if 'TestDNSErrorHandling' not in l and l.strip() not in ('FAIL', 'FAIL\treduction.dev/reduction/rpc') and not l.startswith('FAIL\treduction.dev/reduction/rpc')]
-    if sum(1 for l in p.stdout.splitlines() if l.startswith('ok')) < 20 and not fails:
+    if sum(1 for l in p.stdout.splitlines() if l.startswith('ok')) < (20 if pkgs == './...' else 1) and not fails:
         raise SystemExit('go test did not run: ' + p.stdout[-300:] + p.stderr[-300:])
     return fails
 with open(out, 'a') as fo:
@@ -37,8 +40,11 @@ with open(out, 'a') as fo:
             continue
         open(path, 'wb').write(src[:r['start']] + r['new'].encode() + src[r['end']:])
         try:
-            fails = run()
-            if fails: fails = run() or []  # once more: only a repeated failure counts
+            top = r['file'].split('/')[0]
+            fails = run('./%s/...' % top)          # the mutant's own tree first (fast kill)
+            if not fails: fails = run()            # then everything
+            if fails and any('e2e' in l or 'rpc' in l or 'jobs' in l for l in fails) and not any('/' + top in l for l in fails):
+                fails = run() or []                # timing-sensitive packages only: once more
             if fails: fails = fails[:6]
         finally:
             open(path, 'wb').write(src)
